@@ -238,6 +238,7 @@ func RunC07(c *Ctx, r *Report) {
 	}
 	r.Func(c.FuncName(gen))
 	c.c07Totality(r, prefix)
+	c.dhMethodShapes(r, prefix+"dh-secret-shape")
 	f := c.NewFA(gen)
 
 	// rule 1: offset table
